@@ -96,7 +96,7 @@ def lean_build(prop=None, timeout=3000):
         log += p.stdout
         ok = p.returncode == 0
         if not ok and prop is not None:
-            targets = [f"Tdgl.Props.{prop}"] + ([f"Tdgl.Props.{prop}Bridge"] if (LEAN / "Tdgl" / "Props" / f"{prop}Bridge.lean").exists() else []) + ["driver"]
+            targets = [f"Tdgl.Props.{f.stem}" for f in prop_files(prop)] + ["driver"]
             q = subprocess.run(["lake", "build"] + targets, cwd=LEAN, stdout=subprocess.PIPE, stderr=subprocess.STDOUT, text=True, timeout=timeout)
             log += "\n--- per-property build ---\n" + q.stdout
             ok = q.returncode == 0
@@ -123,7 +123,7 @@ def source_audit():
 
 def prop_files(prop: str):
     d = LEAN / "Tdgl" / "Props"
-    return [f for f in (d / f"{prop}.lean", d / f"{prop}Bridge.lean") if f.exists()]
+    return sorted(d.glob(f"{prop}*.lean"))  # Cxx.lean, CxxBridge.lean (Tie B), CxxFloat.lean, …
 
 
 def theorems_of(prop: str):
@@ -160,6 +160,16 @@ def axiom_audit(prop: str, timeout=900):
         elif re.search(rf"'Tdgl\.{prop}\.{n}' does not depend on any axioms", flat):
             res[n] = []
     return res, out
+
+
+def leanchecker(prop: str, timeout=3000):
+    """thorough tier: re-check the compiled .olean files of the property's modules with Lean's independent
+    checker (`leanchecker`, replays every declaration through the kernel)."""
+    mods = [f"Tdgl.Props.{f.stem}" for f in prop_files(prop)]
+    if not mods:
+        return None
+    p = subprocess.run(["lake", "env", "leanchecker"] + mods, cwd=LEAN, stdout=subprocess.PIPE, stderr=subprocess.STDOUT, text=True, timeout=timeout)
+    return dict(modules=mods, rc=p.returncode, tail=p.stdout[-400:])
 
 
 # ----------------------------------------------------------------------------------------------
@@ -323,6 +333,9 @@ def finish(ctx: Ctx, module, lean_info: dict) -> int:
             broke.append({"kind": "axioms", "theorem": n, "axioms": ax})
     for h in lean_info.get("source_hits", []):
         broke.append({"kind": "forbidden-construct", "where": h})
+    lc = lean_info.get("leanchecker")
+    if lc is not None and lc.get("rc") != 0:
+        broke.append({"kind": "leanchecker", **lc})
     for d in ctx.proof_breaks:
         broke.append({"kind": "bridge", **d})
     for d in ctx.corr_diffs[:10]:
@@ -371,6 +384,7 @@ def finish(ctx: Ctx, module, lean_info: dict) -> int:
         "notes": ctx.notes,
         "explanation": getattr(module, "EXPLANATION", ""),
         "lean_build_s": lean_info.get("build_s"),
+        "leanchecker": lean_info.get("leanchecker"),
         "exhaustive": bool(getattr(module, "EXHAUSTIVE", False)),
     }
     cov.update(ctx.extra)
